@@ -41,6 +41,8 @@ def run(repo, rep):
 
     rep.run_borrowed(_c10, {"C10-a": "C02-s"}, repo)
     rep.clause("C02-u", "what the registers describe is what was bounds-checked: kernel strides keep their axes on the way to NPU_SET_KERNEL_STRIDE [C10-c], the weight DMA starts at core 0's range [C08-l], the register elision compares with the value the hardware holds [C06-e]")
+    rep.clause("C02-v", "address arithmetic of feature maps (functions interpreted): a NHCWB16 coordinate splits the channel into brick c // 16 and lane c % 16 for every element size; the storage shape of a rolling buffer is clipped to the buffer (min with the parameter), never grown")
+    rule_tensor_geometry(repo, rep)
     from . import c06 as _c06u
     from . import c08 as _c08u
 
@@ -1009,3 +1011,52 @@ def _owner_line(fn, var, lineno):
         if isinstance(a, ast.Assign) and len(a.targets) == 1 and isinstance(a.targets[0], ast.Name) and a.targets[0].id == var and a.lineno <= lineno:
             best = max(best, a.lineno)
     return best
+
+
+def rule_tensor_geometry(repo, rep, rule="C02-v"):
+    """(v) Tensor.get_augmented_coord and Tensor.storage_shape_for_sub_purpose are interpreted (engine interpreter, repo source). A brick
+    is 16 *channels* (get_strides multiplies by the element size): the augmented coordinate of channel c is (c // 16, c % 16) for 1-, 2-
+    and 4-byte elements. A rolling buffer's storage shape is the full shape clipped to the buffer extent in the rolling axes: addresses
+    wrap at that extent, and the live range reserves exactly that many rows."""
+    from ..absint import AList, AObj, EnumMember, Interp
+
+    tm = repo.mod("tensor")
+    site = "ethosu/vela/tensor.py:Tensor"
+    for need in ("Tensor.get_augmented_coord", "Tensor.storage_shape_for_sub_purpose"):
+        if tm.func(need) is None:
+            raise AnalysisError(f"tensor.{need} not found")
+
+    def full_shape(i, a, k, n):
+        dim, shape, fill = a
+        return AList([fill] * (dim - len(shape.items)) + list(shape.items))
+
+    it = Interp(repo, tm, externs={"full_shape": full_shape})
+    wrong = None
+    pts = 0
+    for bits in (8, 16, 32):
+        for c in (0, 5, 15, 16, 17, 31, 32, 37, 63):
+            self_ = AObj("t", {"storage_shape": AList([1, 40, 24, 64]), "format": EnumMember(tm, tm.cls("TensorFormat"), "NHCWB16", None), "element_size_bytes": bits // 8}, cls="Tensor")
+            ps = [p_ for p_ in it.run("Tensor.get_augmented_coord", lambda self_=self_, c=c: ([self_, AList([0, 3, 5, c])], {})) if p_.kind == "return"]
+            if len(ps) != 1 or not isinstance(ps[0].value, AList) or not all(isinstance(x, int) for x in ps[0].value.items):
+                raise AnalysisError(f"get_augmented_coord not evaluable for {bits}-bit elements, channel {c}: {[(p_.kind, p_.value) for p_ in ps][:2]}")
+            pts += 1
+            if ps[0].value.items != [0, c // 16, 3, 5, c % 16] and wrong is None:
+                wrong = (bits, c, ps[0].value.items)
+    rep.check(wrong is None, rule, site + ".get_augmented_coord", f"NHCWB16: channel c -> brick c // 16, lane c % 16 for 8-, 16- and 32-bit elements ({pts} points)",
+              (f"{wrong[0]}-bit elements, channel {wrong[1]}: {wrong[2]} (brick {wrong[1] // 16}, lane {wrong[1] % 16} expected): a box that starts at a channel offset (OFM depth slice of an int16 convolution) "
+               "gets a base address in another brick: slices overlap or land behind the tensor") if wrong else "")
+    wrong = None
+    pts = 0
+    for sp, pa, pb, want in (("RollingBufferY", 10, None, [1, 10, 24, 16]), ("RollingBufferY", 100, None, [1, 40, 24, 16]), ("RollingBufferX", 5, None, [1, 40, 5, 16]),
+                             ("RollingBufferXY", 5, 10, [1, 10, 5, 16]), ("Standard", None, None, [1, 40, 24, 16])):
+        self_ = AObj("t", {"storage_shape": AList([1, 40, 24, 16]), "shape": AList([1, 40, 24, 16])}, cls="Tensor")
+        em = EnumMember(tm, tm.cls("TensorSubPurpose"), sp, None)
+        ps = [p_ for p_ in it.run("Tensor.storage_shape_for_sub_purpose", lambda self_=self_, em=em, pa=pa, pb=pb: ([self_, em, pa, pb], {})) if p_.kind == "return"]
+        if len(ps) != 1 or not isinstance(ps[0].value, AList):
+            raise AnalysisError(f"storage_shape_for_sub_purpose({sp}) not evaluable: {[(p_.kind, p_.value) for p_ in ps][:2]}")
+        pts += 1
+        if ps[0].value.items != want and wrong is None:
+            wrong = (sp, pa, pb, ps[0].value.items, want)
+    rep.check(wrong is None, rule, site + ".storage_shape_for_sub_purpose", f"rolling-buffer storage shapes are the full shape clipped to the buffer extent ({pts} cases)",
+              (f"{wrong[0]}({wrong[1]}, {wrong[2]}) of a [1, 40, 24, 16] map: {wrong[3]}, expected {wrong[4]}: addresses no longer wrap at the buffer height while the live range reserves the buffer only: "
+               "stripes are written behind the reserved rows") if wrong else "")
